@@ -233,6 +233,29 @@ def match_known(prop, ev, why, known):
     return None
 
 
+# ------------------------------------------------------------------ constants read from the source
+def source_constants():
+    """Algorithm switch points of dashu-int, read from /repo so that the generated size classes follow the code:
+    {name: value}; a constant that cannot be found falls back to the pinned value and is listed under 'unbound'."""
+    spec = {
+        "MUL_THRESHOLD_SIMPLE": ("integer/src/mul/mod.rs", r"const THRESHOLD_SIMPLE: usize = (\d+);", 24),
+        "MUL_THRESHOLD_KARATSUBA": ("integer/src/mul/mod.rs", r"const THRESHOLD_KARATSUBA: usize = (\d+);", 192),
+        "SQR_MAX_LEN_SIMPLE": ("integer/src/sqr/mod.rs", r"const MAX_LEN_SIMPLE: usize = (\d+);", 30),
+        "DIV_THRESHOLD_SIMPLE": ("integer/src/div/mod.rs", r"const THRESHOLD_SIMPLE: usize = (\d+);", 32),
+    }
+    repo = os.environ.get("VERIF_REPO", "/repo")
+    out, unbound = {}, []
+    for name, (path, rx, default) in spec.items():
+        try:
+            m = re.search(rx, open(os.path.join(repo, path)).read())
+            out[name] = int(m.group(1))
+        except Exception:
+            out[name] = default
+            unbound.append(name)
+    out["unbound"] = unbound
+    return out
+
+
 # ------------------------------------------------------------------ check context
 class Ctx:
     def __init__(self, prop, tier, seed, replay=None):
